@@ -66,6 +66,7 @@ def run(F, rep, tier):
     pipe_rules(F, rep, T)
     irp_read(F, rep, T)
     irp_order(F, rep, T)
+    irp_late_read(F, rep, T)
     irp_bracket(F, rep, T)
     irp_shortcircuit(F, rep, T)
     visit_lowering(F, rep, T)
@@ -315,6 +316,49 @@ def irp_order(F, rep, T):
         s = T.S.get(name)
         rep.ob("IRP-order", "%s|materialised" % name, bool(s) and not s["inlinable"],
                "IR::%s is always materialised as a local (a variable read is a snapshot; a call happens where it is written)" % name)
+
+
+def irp_late_read(F, rep, T, rule="IRP-order"):
+    """a program variable that an op reads *directly* (not through the snapshot IR::Copy makes when the variable is
+    read as an expression) is read when that op executes.  If code of a child expression runs between the source
+    position of the read and the op, a call in that child can change the variable first: `x += f()` must read x
+    before f() runs, like `x = x + f()` does."""
+    n = 0
+    for label, items, result, arm in T.all_templates():
+        bad = {}
+        for lin in irp.linearisations(items):
+            code_before = None
+            for it in lin:
+                if it[0] == "code":
+                    code_before = code_before or it[2]
+                elif it[0] == "rep":
+                    if any(x[0] == "code" for x in it[2]):
+                        code_before = code_before or "repeated children"
+                elif it[0] == "op":
+                    s_ = T.S.get(it[1])
+                    if not s_:
+                        continue
+                    import re as _re
+                    mw = _re.match(r"^(?:local )?\{(?:expand|name):(\d+)\} = ", s_["text_many"] or "")
+                    written = int(mw.group(1)) if mw else None
+                    for pos in s_["reads"]:
+                        if not isinstance(pos, int) or pos >= len(it[2]) or pos == written:
+                            continue
+                        o = it[2][pos]
+                        opts = [o] if o and o[0] == "resvar" else [x for x in o[1] if x and x[0] == "resvar"] if o and o[0] == "altval" else []
+                        for ov in opts:
+                            n += 1
+                            if code_before:
+                                bad[(it[1], ov[1])] = (code_before, it[3] if len(it) > 3 else None)
+        for (op, var), (child, where) in sorted(bad.items()):
+            rep.ob(rule, "%s|%s|late-read-of-%s" % (label, op, var), False,
+                   "lowering template %s: IR::%s reads the program variable `%s` itself, after the code of `%s` has run: a call "
+                   "in there that assigns the variable changes the operand (`x += f()` stores x_after_f + f(), while "
+                   "`x = x + f()` snapshots x first)" % (label, op, var, child), where)
+        if not bad:
+            rep.ob(rule, "%s|direct-variable-reads" % label, True,
+                   "lowering template %s reads no program variable after evaluating a child" % label, line_of(arm) if arm else None, sites=0)
+    rep.floor(rule, "direct reads of program variables in templates", n, 1)
 
 
 def irp_bracket(F, rep, T):
